@@ -24,6 +24,7 @@ Requests (matrices travel as `rows cols v11 v12 …`, exact rationals):
 -/
 import GPVerif.Model.Fantasy
 import GPVerif.Gen.FantasyAlgebra
+import GPVerif.Gen.FantasyShapes
 import GPVerif.Model.Proto
 open Proto Fantasy
 
@@ -228,8 +229,91 @@ def doRoutes (ts : List String) : String :=
     s!"ok eq={bit (decide (g = spec))}{bit okc} | " ++ " ".intercalate (g.map shw)
   | _ => "bad"
 
+/-! ### batch-shape choreography (`Gen/FantasyShapes.lean`) on position-tagged tensors
+
+  fshape mb | ib | tb | kb      shapes comma separated in torch order (`-` = scalar shape)
+      reply: ok gen=<0/1> spec=<0/1> | <reg> gshape=<s> sshape=<s> gen=<p;p;…> spec=<p;p;…> | …
+        gen  = the GENERATED program (`Gen.FantasyShapes.fantasyProgram`) run on tensors whose element `i` of input
+               register `r` is the tag `r.i`; an element-level primitive returns the union of its arguments' tags
+        spec = `FShapes.Accepts`, the specified output shapes and `elemFantasy` on the slices `bidxR · e`
+        p    = tags `r.i+r.i+…` of one output element (row-major order)
+  fnoise nb | kb                the same for `FixedNoiseGaussianLikelihood.get_fantasy_likelihood`
+-/
+
+namespace ShapeDriver
+open Bcast FShapes
+
+abbrev Tags := List (Nat × Nat)
+
+def insertTag (t : Nat × Nat) : Tags → Tags
+  | [] => [t]
+  | x :: xs => if t = x then x :: xs else if t.1 < x.1 ∨ (t.1 = x.1 ∧ t.2 < x.2) then t :: x :: xs else x :: insertTag t xs
+
+def union (a b : Tags) : Tags := b.foldl (fun acc t => insertTag t acc) a
+
+/-- every primitive returns the tags of everything it reads -/
+def tagI (_ : Nat) (args : List Tags) : Tags := args.foldl union []
+
+def tagged (r : Nat) (s : RShape) : T Tags := ⟨s, fun idx => [(r, flat s idx)]⟩
+
+def commaNats (s : String) : Option (List Nat) :=
+  let s := s.trimAscii.toString
+  if s = "-" ∨ s = "" then some [] else (s.splitOn ",").mapM fun t => t.trimAscii.toString.toNat?
+
+def showNats (l : List Nat) : String := if l.isEmpty then "-" else ",".intercalate (l.map toString)
+def showTags (t : Tags) : String := "+".intercalate (t.map fun p => s!"{p.1}.{p.2}")
+def showT (t : T Tags) : String := ";".intercalate (t.toFlat.map showTags)
+def bit (b : Bool) : String := if b then "1" else "0"
+
+def outputs : List (Nat × (RShape → RShape → RShape → RShape) × (ElemOut Tags → Tags)) :=
+  [(Reg.outTrainX, outXShape, (·.trainX)), (Reg.outTrainY, fun mb _ tb => adj mb tb, (·.trainY)),
+   (Reg.sTrainX, stratShape, (·.sTrainX)), (Reg.sMean, stratShape, (·.sMean)), (Reg.sCovar, stratShape, (·.sCovar)),
+   (Reg.sLabels, fun mb _ tb => adj mb tb, (·.sLabels)), (Reg.sRoot, stratShape, (·.sRoot)),
+   (Reg.sInvRoot, fun mb ib _ => adj mb ib, (·.sInvRoot)), (Reg.outMeanCache, cacheShape, (·.meanCache)),
+   (Reg.outCovarCache, fun mb ib _ => adj mb ib, (·.covarCache))]
+
+def doShape (mb ib tb kb : RShape) : String :=
+  let tX := tagged Reg.trainX mb; let tY := tagged Reg.trainY mb; let xf := tagged Reg.xf ib; let yf := tagged Reg.yf tb
+  let th := tagged Reg.theta mb; let lt := tagged Reg.ltt mb; let mc := tagged Reg.meanCache mb; let kw := tagged Reg.kw kb
+  let r := run tagI Gen.FantasyShapes.fantasyProgram (fantasyEnv Gen.FantasyShapes.nShapes tX tY xf yf th lt mc kw)
+  let acc := decide (Accepts mb ib tb kb)
+  let el (e : RIdx) : ElemOut Tags :=
+    elemFantasy tagI (tX.get (bidxR mb e)) (tY.get (bidxR mb e)) (xf.get (bidxR ib e)) (yf.get (bidxR tb e))
+      (th.get (bidxR mb e)) (lt.get (bidxR mb e)) (mc.get (bidxR mb e)) (kw.get (bidxR kb e))
+  let head := s!"ok gen={bit r.isSome} spec={bit acc}"
+  let body := outputs.map fun (o, shp, field) =>
+    let ss := shp mb ib tb
+    let spec : T Tags := ⟨ss, fun e => field (el e)⟩
+    let g := match r.bind (·.ten o) with
+      | some t => s!"gshape={showNats (toTorch t.shape)} gen={showT t}"
+      | none => "gshape=none gen="
+    let sp := if acc then s!"sshape={showNats (toTorch ss)} spec={showT spec}" else "sshape=none spec="
+    s!"{o} {g} {sp}"
+  " | ".intercalate (head :: body)
+
+def doNoise (nb kb : RShape) : String :=
+  let o := tagged Reg.oldNoise nb; let n := tagged Reg.newNoise kb
+  let r := run tagI Gen.FantasyShapes.fixedNoiseProgram (noiseEnv Gen.FantasyShapes.fixedNoiseNShapes o n)
+  let acc := decide (AcceptsNoise nb kb)
+  let spec : T Tags := ⟨kb, fun e => tagI (Prim.cat 1) [o.get (bidxR nb e), n.get (bidxR kb e)]⟩
+  let g := match r.bind (·.ten Reg.outNoise) with
+    | some t => s!"gshape={showNats (toTorch t.shape)} gen={showT t}"
+    | none => "gshape=none gen="
+  let sp := if acc then s!"sshape={showNats (toTorch kb)} spec={showT spec}" else "sshape=none spec="
+  s!"ok gen={bit r.isSome} spec={bit acc} | {Reg.outNoise} {g} {sp}"
+
+def handle (rest : List String) (noise : Bool) : String :=
+  match ((" ".intercalate rest).splitOn "|").mapM commaNats with
+  | some [mb, ib, tb, kb] => if noise then "bad" else doShape (ofTorch mb) (ofTorch ib) (ofTorch tb) (ofTorch kb)
+  | some [nb, kb] => if noise then doNoise (ofTorch nb) (ofTorch kb) else "bad"
+  | _ => "bad"
+
+end ShapeDriver
+
 def step (line : String) : String :=
   match tokens line with
+  | "fshape" :: ts => ShapeDriver.handle ts false
+  | "fnoise" :: ts => ShapeDriver.handle ts true
   | "fant" :: ts => doFant ts
   | "root" :: ts => doRoot ts
   | "wiski" :: ts => doWiski ts
